@@ -230,6 +230,8 @@ def main(argv=None):
         known = [k for k in load_known() if k.get("property") == pid]
         open_known = {os.path.abspath(os.path.join(ROOT, k["replay"])): k for k in known if k.get("status") == "open"}
         paths = sorted(set(list(open_known) + [os.path.abspath(p) for p in glob.glob(os.path.join(REPLAY_DIR, pid, "*.json"))]))
+        if os.environ.get("VERIF_SKIP_REPLAYS"):      # sensitivity experiments only: generated search alone
+            paths = sorted(open_known)
         for path, viol, err in pool.map(_replay_job, [(pid, p) for p in paths]):
             if err is not None:
                 harness = err
